@@ -271,22 +271,27 @@ def F1(m, R):
     # valid
     f = m.fn('AnsiSetting.valid')
     cons = 'valid byte class'
-    loops = [n for n in f.walk() if isinstance(n, ast.For)]
-    hit = None
-    for lp in loops:
-        for st in lp.body:
-            if isinstance(st, ast.If) and any(isinstance(x, ast.Return) and const_val(x.value) is False for x in st.body):
-                hit = (lp, st)
-    if hit is None:
+    from ..shapes import reject_predicate, local_aliases
+    from ..shapes import subst as _subst2
+    rp = reject_predicate(f)
+    if rp is None:
         R.undecided(f, f.node, 'per-character rejection not found', construct=cons)
     else:
-        lp, st = hit
+        class _LP:
+            pass
+        lp = _LP()
+        lp.target, lp.iter = rp[0], rp[1]
+
+        class _ST:
+            pass
+        st = rp[3]
+        rtest = _subst2(rp[2], local_aliases(f))
         x = 'ord(%s)' % norm(lp.target)
-        tt = region_table(st.test, x, lo, hi)
+        tt = region_table(rtest, x, lo, hi)
         want = {'<lo': False, '=lo': True, 'inside': True, '=hi': True, '>hi': False}
         problems = []
         if any(v is None for v in tt.values()):
-            R.undecided(f, st, 'byte-class test %s not decided' % short(st.test), construct=cons)
+            R.undecided(f, st, 'byte-class test %s not decided' % short(rtest), construct=cons)
             tt = want
         if tt != want:
             problems.append('rejects regions %s of a code point against [0x40,0x7E]; exact is lo..hi inclusive' % sorted(k for k, v in tt.items() if v))
